@@ -256,3 +256,37 @@ pub fn check_refusal(l: &L, tf: TF, loc: &mut Local) {
     }
     loc.nontrivial_sub();
 }
+
+/// A strict functor on the Vec backend whose `map_operations` reads the batch the way user code does: through
+/// the borrowing iterator `Operations::iter()`.
+pub struct IterFunctor(pub TF);
+
+impl open_hypergraphs::strict::functor::Functor<open_hypergraphs::array::vec::VecKind, u8, u8, u8, u8> for IterFunctor {
+    fn map_object(&self, a: &crate::onvec::SF<u8>) -> crate::onvec::IC<crate::onvec::SF<u8>> {
+        crate::onvec::seg_sf(&a.0 .0.iter().map(|&l| self.0.obj(l)).collect::<Vec<_>>())
+    }
+    fn map_operations(&self, ops: open_hypergraphs::operations::Operations<open_hypergraphs::array::vec::VecKind, u8, u8>) -> crate::onvec::SOpen<u8, u8> {
+        let mut acc = P::empty();
+        for (x, a, b) in ops.iter() {
+            acc = acc.tensor(&self.0.image_strict(*x, a, b));
+        }
+        crate::onvec::build_open(&acc)
+    }
+    fn map_arrow(&self, f: &crate::onvec::SOpen<u8, u8>) -> crate::onvec::SOpen<u8, u8> {
+        open_hypergraphs::strict::functor::define_map_arrow(self, f)
+    }
+}
+
+pub fn check_iter_functor(f: &P, tf: TF, loc: &mut Local) {
+    use open_hypergraphs::strict::functor::Functor as _;
+    let expected = tf.substitute(f);
+    let sf = crate::onvec::build_open(f);
+    loc.trans(1);
+    match catch(|| IterFunctor(tf).map_arrow(&sf)).and_then(|r| decode_open(&r)) {
+        Ok(r) if iso(&r, &expected) => {}
+        other => loc.violation("functor-reading-Operations::iter:not-the-substitution", json!({"f": f, "functor": tf, "got": format!("{:?}", other)})),
+    }
+    if f.edges.iter().any(|e| e.src.len() != e.tgt.len()) {
+        loc.nontrivial_sub();
+    }
+}
